@@ -187,8 +187,9 @@ pub fn run_child() -> i32 {
     let private_fs = isolate_disk(&scratch);
     std::env::set_var("TMPDIR", format!("{scratch}/tmp"));
     std::env::set_var("HOME", format!("{scratch}/home"));
+    install_tools(&scratch);
     for (k, val) in &epoch.env {
-        std::env::set_var(k, val);
+        std::env::set_var(k, val.replace("$SCRATCH", &scratch));
     }
     if std::env::set_current_dir(&scratch).is_err() {
         return 3;
@@ -396,6 +397,25 @@ pub fn run_child() -> i32 {
     0
 }
 
+/// Stand-in external tools on the simulated disk (`$SCRATCH/bin`): a macro that pipes its output
+/// through `rustfmt` (or asks `rustc`, `cargo`, `git` something) finds these when the simulated
+/// `PATH` leads here. Each copies stdin to stdout and appends a marker item, so that USING a
+/// tool's output changes the expansion.
+fn install_tools(scratch: &str) {
+    use std::os::unix::fs::PermissionsExt;
+    let dir = format!("{scratch}/bin");
+    if std::path::Path::new(&dir).join("rustfmt").exists() {
+        return;
+    }
+    let _ = std::fs::create_dir_all(&dir);
+    for tool in ["rustfmt", "rustc", "cargo", "git", "clang-format", "prettyplease", "sh-tool"] {
+        let path = format!("{dir}/{tool}");
+        if std::fs::write(&path, "#!/bin/sh\ncat\necho ' const _SIMULATED_TOOL_OUTPUT : () = () ;'\n").is_ok() {
+            let _ = std::fs::set_permissions(&path, std::fs::Permissions::from_mode(0o755));
+        }
+    }
+}
+
 /// The simulated machine's disk. TMPDIR and HOME already point into the run's scratch directory,
 /// but an environment fault (or an absolute path) could lead a mutated macro to the REAL /tmp,
 /// /var/tmp or /dev/shm, whose contents outlive the run: the epoch process therefore moves into a
@@ -443,7 +463,7 @@ fn apply_env_fault(d: &Decision, scratch: &str, log: &mut Vec<String>) {
     // safe: every simulated thread is parked in a channel recv right now
     match d {
         Decision::EnvSet(k, v) => {
-            std::env::set_var(k, v);
+            std::env::set_var(k, v.replace("$SCRATCH", scratch));
             log.push(format!(
                 "{{\"ev\":\"fault\",\"kind\":\"env_set\",\"fired\":true,\"name\":{}}}",
                 esc(k)
